@@ -1,0 +1,13 @@
+//go:build verif
+
+package grammar
+
+// ParseCounted is Parse that also reports how many parser steps
+// (Stats.ExprCnt) the parse executed. It is a read-only accessor used by the
+// bounded cross-check of the MaxExpressions budget in /verif; it adds no
+// behaviour to the package.
+func ParseCounted(b []byte, opts ...Option) (any, error, uint64) {
+	p := newParser("", b, opts...)
+	val, err := p.parse(g)
+	return val, err, p.ExprCnt
+}
